@@ -6,6 +6,11 @@
 //	(B) a driver runs the generated code on the real runtime (every failing subset, rendezvous
 //	    configurations, completion orders, GOMAXPROCS 1/4/16, with and without -race) and the
 //	    evaluator compares every outcome with the model's outcome set and the specification.
+//	    Hardening round 4: besides the int instances the battery runs instances whose results are
+//	    of interface, pointer, slice, map, func, chan, string and struct type, with nil / zero /
+//	    typed-nil values (shapes, policies below), and the same package is generated, compiled and
+//	    run a second time in a module whose go.mod declares an older language version (go 1.21:
+//	    per-loop instead of per-iteration loop variables; thorough also go 1.18).
 package c20
 
 import (
@@ -75,6 +80,11 @@ func configs() []config {
 }
 
 func fsSexp(n int, mask int, scripts [][]string) string {
+	return fsSexpV(n, mask, scripts, nil)
+}
+
+// fsSexpV: rvs (optional) gives the result value of every function; default 100+7i
+func fsSexpV(n int, mask int, scripts [][]string, rvs []int) string {
 	var b strings.Builder
 	b.WriteString("(fs")
 	for i := 0; i < n; i++ {
@@ -82,10 +92,110 @@ func fsSexp(n int, mask int, scripts [][]string) string {
 		if mask&(1<<i) != 0 {
 			re = i + 1
 		}
-		fmt.Fprintf(&b, " (f (%s) %d %d)", strings.Join(scripts[i], " "), 100+7*i, re)
+		rv := 100 + 7*i
+		if rvs != nil {
+			rv = rvs[i]
+		}
+		fmt.Fprintf(&b, " (f (%s) %d %d)", strings.Join(scripts[i], " "), rv, re)
 	}
 	b.WriteString(")")
 	return b.String()
+}
+
+// shapes: the typed instances of callsSrc (driver: call)
+type shape struct {
+	name string
+	n    int
+}
+
+func typedShapes() []shape {
+	return []shape{{"iface2", 2}, {"iface3", 3}, {"mix", 3}, {"ref3", 3}, {"ref4", 4}}
+}
+
+// value policies: which natural number (hence which value of the result type, see driversrc.go)
+// every function returns. 0 = zero value (nil interface, nil pointer, ...), 1 = typed nil / empty.
+func policies() []string { return []string{"nil-when-failing", "all-nil", "typed-nil", "mixed", "values"} }
+
+func policyValues(pol string, n, mask int, r *hx.Rand) []int {
+	rvs := make([]int, n)
+	for i := range rvs {
+		v := 100 + 7*i
+		switch pol {
+		case "nil-when-failing": // the idiomatic `return nil, err`
+			if mask&(1<<i) != 0 {
+				v = 0
+			}
+		case "all-nil":
+			v = 0
+		case "typed-nil":
+			v = 1
+		case "mixed":
+			v = []int{0, 1, v}[r.Intn(3)]
+		}
+		rvs[i] = v
+	}
+	return rvs
+}
+
+func ranks(o []int) string {
+	var rk []string
+	for _, x := range o {
+		rk = append(rk, fmt.Sprint(x))
+	}
+	return strings.Join(rk, ",")
+}
+
+// typedCases: every typed shape x configurations x every failing subset x value policies
+// (one completion order and one GOMAXPROCS per case, rotating). The evaluation of a 4-function
+// observation by the model costs ten times that of a 3-function one, and the result types do not
+// interact with the arity: the quick tier runs the 4-function shape with less (want).
+func typedCases(meta *hx.Meta, r *hx.Rand, gover string, want func(sh shape, cfg, pol string) bool) (string, int) {
+	var b strings.Builder
+	k := 0
+	for _, sh := range typedShapes() {
+		all := perms(sh.n)
+		for _, c := range configs() {
+			for mask := 0; mask < 1<<sh.n; mask++ {
+				for _, pol := range policies() {
+					if !want(sh, c.name, pol) {
+						continue
+					}
+					o := all[r.Intn(len(all))]
+					pr := []int{1, 4, 16}[k%3]
+					rvs := policyValues(pol, sh.n, mask, r)
+					fmt.Fprintf(&b, "%d|%s|%s|%s %s %s|%s\n", pr, ranks(o), sh.name, gover, sh.name, pol,
+						fsSexpV(sh.n, mask, c.scripts(sh.n), rvs))
+					k++
+					meta.Count(fmt.Sprintf("run/%s/%s/%s", gover, sh.name, pol))
+				}
+			}
+		}
+	}
+	return b.String(), k
+}
+
+// intCasesOld: the int instances in the old-language-version module: n = 2..4 x every
+// configuration x every failing subset (quick: a quarter of the subsets for n = 4), one completion
+// order each.
+func intCasesOld(meta *hx.Meta, r *hx.Rand, gover string, thorough bool) (string, int) {
+	var b strings.Builder
+	k := 0
+	for n := 2; n <= 4; n++ {
+		all := perms(n)
+		for ci, c := range configs() {
+			for mask := 0; mask < 1<<n; mask++ {
+				if n == 4 && !thorough && (mask+ci)%4 != 0 {
+					continue
+				}
+				o := all[r.Intn(len(all))]
+				pr := []int{1, 4, 16}[k%3]
+				fmt.Fprintf(&b, "%d|%s|int|%s int values|%s\n", pr, ranks(o), gover, fsSexp(n, mask, c.scripts(n)))
+				k++
+				meta.Count(fmt.Sprintf("run/%s/int/n=%d", gover, n))
+			}
+		}
+	}
+	return b.String(), k
 }
 
 func perms(n int) [][]int {
@@ -114,21 +224,8 @@ func Run(cfg hx.Config) (*hx.Meta, error) {
 		return nil, err
 	}
 	// ---- the package: deriveDo for 2, 3, 4 functions (all results int, so that a swap of
-	// positions still compiles) and one instance with mixed result types ----
-	var calls strings.Builder
-	calls.WriteString("package main\n\n")
-	for n := 2; n <= 4; n++ {
-		var ps, as, rs []string
-		for i := 0; i < n; i++ {
-			ps = append(ps, fmt.Sprintf("f%d func() (int, error)", i))
-			as = append(as, fmt.Sprintf("f%d", i))
-			rs = append(rs, "int")
-		}
-		fmt.Fprintf(&calls, "func do%d(%s) (%s, error) { return deriveDo%d(%s) }\n\n", n, strings.Join(ps, ", "), strings.Join(rs, ", "), n, strings.Join(as, ", "))
-	}
-	calls.WriteString("type S struct{ A int }\n\n")
-	calls.WriteString("func doMix(f0 func() (string, error), f1 func() (*S, error), f2 func() ([]int, error)) (string, *S, []int, error) {\n\treturn deriveDoMix(f0, f1, f2)\n}\n")
-	files := map[string]string{"calls.go": calls.String()}
+	// positions still compiles) and instances with other result types (callsSrc) ----
+	files := map[string]string{"calls.go": callsSrc}
 	if err := hx.WriteFiles(dir, files); err != nil {
 		return nil, err
 	}
@@ -246,11 +343,7 @@ func Run(cfg hx.Config) (*hx.Meta, error) {
 						procs = []int{[]int{1, 4, 16}[(oi+mask+n)%3]}
 					}
 					for _, pr := range procs {
-						var rk []string
-						for _, x := range o {
-							rk = append(rk, fmt.Sprint(x))
-						}
-						fmt.Fprintf(&cases, "%d|%s|%s\n", pr, strings.Join(rk, ","), fsSexp(n, mask, c.scripts(n)))
+						fmt.Fprintf(&cases, "%d|%s|int|-|%s\n", pr, ranks(o), fsSexp(n, mask, c.scripts(n)))
 						ncase++
 						meta.Count(fmt.Sprintf("run/n=%d/%s", n, c.name))
 						meta.Count(fmt.Sprintf("run/gomaxprocs=%d", pr))
@@ -267,15 +360,89 @@ func Run(cfg hx.Config) (*hx.Meta, error) {
 		}
 		for _, pr := range []int{1, 4, 16} {
 			rk := []string{"0", "1", "2", "3"}[:n]
-			fmt.Fprintf(&ccases, "%d|%s|%s\n", pr, strings.Join(rk, ","), l)
+			fmt.Fprintf(&ccases, "%d|%s|int|-|%s\n", pr, strings.Join(rk, ","), l)
 			ncase++
 			meta.Count("run/corpus")
 		}
 	}
-	if err := hx.WriteFiles(dir, map[string]string{"driver.go": driverSrc, "cases.txt": ccases.String() + cases.String()}); err != nil {
-		return nil, err
+	// typed result shapes x value policies (nil interfaces, nil pointers, typed nils, ...)
+	rt := r.Fork(20)
+	thorough := cfg.Tier == "thorough"
+	tcases, nt := typedCases(meta, rt, "go1.24", func(sh shape, c, pol string) bool {
+		if thorough {
+			return sh.n < 4 || c == "independent" || c == "first-waits-for-last" || c == "chain"
+		}
+		if sh.n == 4 {
+			return c == "independent" && (pol == "nil-when-failing" || pol == "mixed")
+		}
+		return c == "independent" || c == "first-waits-for-last"
+	})
+	ncase += nt
+	genFiles := map[string]string{"go.mod": "module p\n\ngo 1.24\n", "calls.go": callsSrc, "derived.gen.go": string(gen)}
+	if !runBattery(meta, cfg, dir, "", genFiles, ccases.String()+tcases+cases.String()) {
+		meta.Cases = ncase + nsearch
+		return meta, nil
 	}
-	genFiles := map[string]string{"calls.go": files["calls.go"], "derived.gen.go": string(gen)}
+
+	// ---- (B') the same package in modules that declare an older language version: the generated
+	// code is compiled with the user's go.mod, not with goderive's. go 1.21 = the last version with
+	// per-loop loop variables; go 1.18 = the first with `any`. ----
+	govers := []string{"1.21"}
+	if cfg.Tier == "thorough" {
+		govers = append(govers, "1.18")
+	}
+	for _, gv := range govers {
+		odir := filepath.Join(cfg.Work, "c20pkg-go"+gv)
+		gomod := "module p\n\ngo " + gv + "\n"
+		ofiles := map[string]string{"go.mod": gomod, "calls.go": callsSrc}
+		if err := hx.WriteFiles(odir, ofiles); err != nil {
+			return nil, err
+		}
+		meta.Packages++
+		og := hx.Goderive(cfg.Goderive, odir, ".")
+		meta.GoderiveRuns++
+		if og.Exit != 0 {
+			meta.AddDirect(hx.Direct{Class: "c20-generate-failed", What: "goderive failed on the C20 package in a module with `go " + gv + "`",
+				Files: ofiles, Cmd: "goderive .", Output: hx.Truncate(og.Out, 4000)})
+			continue
+		}
+		ogen, err := os.ReadFile(filepath.Join(odir, "derived.gen.go"))
+		if err != nil {
+			return nil, err
+		}
+		_ = os.WriteFile(filepath.Join(cfg.Out, "c20-go"+gv+".derived.gen.go"), ogen, 0o644)
+		if string(ogen) == string(gen) {
+			meta.Count("oldmodule/go" + gv + "/generated-identical")
+		} else {
+			meta.Count("oldmodule/go" + gv + "/generated-differs")
+		}
+		ofiles["derived.gen.go"] = string(ogen)
+		ro := r.Fork(uint64(len(gv)) + 21)
+		oc1, n1 := intCasesOld(meta, ro, "go"+gv, thorough)
+		oc2, n2 := typedCases(meta, ro, "go"+gv, func(sh shape, c, pol string) bool {
+			if pol != "nil-when-failing" && pol != "mixed" {
+				return false
+			}
+			if sh.n == 4 {
+				return thorough && c == "independent"
+			}
+			return c == "independent" || c == "first-waits-for-last" || (thorough && c == "chain")
+		})
+		ncase += n1 + n2
+		runBattery(meta, cfg, odir, "-go"+gv, ofiles, oc2+oc1)
+	}
+	meta.Cases = ncase + nsearch
+	return meta, nil
+}
+
+// runBattery compiles driver + calls.go + derived.gen.go in dir (plain and with the race
+// detector), runs the cases and registers the observation files. false = does not compile.
+func runBattery(meta *hx.Meta, cfg hx.Config, dir, suffix string, genFiles map[string]string, cases string) bool {
+	if err := hx.WriteFiles(dir, map[string]string{"driver.go": driverSrc, "cases.txt": cases}); err != nil {
+		meta.AddDirect(hx.Direct{Class: "c20-harness-error", What: err.Error()})
+		return false
+	}
+	where := "go.mod: " + strings.TrimSpace(strings.TrimPrefix(genFiles["go.mod"], "module p\n\n"))
 	for _, mode := range []string{"plain", "race"} {
 		exe := filepath.Join(dir, "drv-"+mode)
 		args := []string{"build", "-o", exe}
@@ -289,31 +456,34 @@ func Run(cfg hx.Config) (*hx.Meta, error) {
 				meta.Notes = append(meta.Notes, "go build -race is not available here: "+hx.Truncate(b.Out, 300))
 				continue
 			}
-			meta.AddDirect(hx.Direct{Class: "c20-build-failed", What: "generated deriveDo package does not compile",
+			meta.AddDirect(hx.Direct{Class: "c20-build-failed", What: "generated deriveDo package does not compile (" + where + ")",
 				Files: genFiles, Cmd: "goderive . && go " + strings.Join(args, " "), Output: hx.Truncate(b.Out, 4000)})
-			return meta, nil
+			return false
 		}
 		env := append(hx.GoEnv(), "GORACE=halt_on_error=0 exitcode=66")
 		res := hx.Run(dir, 20*time.Minute, 0, env, exe, "cases.txt")
-		obs := filepath.Join(cfg.Out, "c20-run-"+mode+".obs")
+		obs := filepath.Join(cfg.Out, "c20-run"+suffix+"-"+mode+".obs")
 		if err := os.WriteFile(obs, []byte(res.Stdout), 0o644); err != nil {
-			return nil, err
+			meta.AddDirect(hx.Direct{Class: "c20-harness-error", What: err.Error()})
+			return false
 		}
 		meta.ObsFiles = append(meta.ObsFiles, obs)
-		meta.Count("driver/" + mode)
+		meta.Count("driver" + suffix + "/" + mode)
 		if strings.Contains(res.Out, "WARNING: DATA RACE") {
-			meta.AddDirect(hx.Direct{Class: "c20-data-race", What: "the race detector reports a data race in the generated deriveDo",
+			meta.AddDirect(hx.Direct{Class: "c20-data-race", What: "the race detector reports a data race in the generated deriveDo (" + where + ")",
 				Files: genFiles, Cmd: "go build -race && ./drv cases.txt", Output: hx.Truncate(res.Out[strings.Index(res.Out, "WARNING: DATA RACE"):], 4000)})
 		} else if res.Exit != 0 && !strings.Contains(res.Stdout, "deadlock") {
-			meta.AddDirect(hx.Direct{Class: "c20-driver-failed", What: "driver failed", Files: genFiles,
+			meta.AddDirect(hx.Direct{Class: "c20-driver-failed", What: "driver failed (" + where + ")", Files: genFiles,
 				Cmd: "./drv-" + mode + " cases.txt", Output: hx.Truncate(res.Out, 4000)})
+		}
+		if k := strings.Index(res.Out, "panicked: "); k >= 0 {
+			meta.Notes = append(meta.Notes, where+", "+mode+": "+hx.Truncate(res.Out[strings.LastIndex(res.Out[:k], "\n")+1:], 300))
 		}
 		for i, l := range strings.Split(res.Stdout, "\n") {
 			if i%97 == 40 && l != "" {
-				meta.Sample(mode + ": " + hx.Truncate(l, 220))
+				meta.Sample(mode + suffix + ": " + hx.Truncate(l, 220))
 			}
 		}
 	}
-	meta.Cases = ncase + nsearch
-	return meta, nil
+	return true
 }
